@@ -680,6 +680,9 @@ let fixed_cases () : string list =
       "txb " ^ hex_of_string b ^ " " ^ av ^ " " ^ ab; "txb " ^ hex_of_string (b ^ "\x00") ^ " " ^ av;
       "txn " ^ hex_of_string b ^ " a0 1 ~ " ^ av; "txn " ^ hex_of_string b ^ " a10080 0 a0 " ^ ab;
       "txn " ^ hex_of_string b ^ " " ^ hex_of_string ("\xa1\x00\x81" ^ vkw) ^ " 1 a10102 " ^ av;
+      "txn " ^ hex_of_string b ^ " a0 1 a1180102"; "txn " ^ hex_of_string b ^ " a0 0 bf0102ff " ^ av; "txn " ^ hex_of_string b ^ " a0 1 a1011802";
+      "txn " ^ hex_of_string b ^ " a0 1 82a080"; "txn " ^ hex_of_string b ^ " a0 1 9fa080ff"; "txn " ^ hex_of_string b ^ " a0 1 d90103a100a1190001181802";
+      "txn " ^ hex_of_string b ^ " bf0080ff 1 ~ " ^ av; "txn " ^ hex_of_string b ^ " a1190000d901029fff 1 ~";
       "fb " ^ hex_of_string b; "fb " ^ hex_of_string (b ^ "\xff\x01")
     ]) [tiny_body; tiny_body_tagged])
   @ [ "blk 848081a080a0 80"; "blk 858081a080a080 80"; "blk 848081a080a080 80"; "blk 858081a080a0 80"; "blk 838081a080 80";
@@ -762,7 +765,14 @@ let gen_mode seed tier out =
     let junk = if chance 15 then "\x00" else "" in
     (match below 3 with
      | 0 -> Printf.fprintf oc "txb %s %s\n" (hex_of_string (body ^ junk)) (String.concat " " (gen_ops (body ^ junk) true))
-     | 1 -> Printf.fprintf oc "txn %s %s %d %s %s\n" (hex_of_string (body ^ junk)) (hex_of_string wits) (if valid = "\xf5" then 1 else 0)
+     | 1 ->
+       (* the constructors keep their auxiliary-data argument verbatim: give it visibly non-canonical spellings *)
+       let aux = (match aux with
+           | Some a when chance 60 ->
+             let loud = (match below 3 with 0 -> { quiet with widen = 60 } | 1 -> { quiet with indef = 60 } | _ -> { widen = 40; indef = 40; chunk = 20; shuffle = 0; untag = 0 }) in
+             ignore a; Some (nstr loud (gen_item (auxiliaryData depth) (1 + below 3)))
+           | x -> x) in
+       Printf.fprintf oc "txn %s %s %d %s %s\n" (hex_of_string (body ^ junk)) (hex_of_string wits) (if valid = "\xf5" then 1 else 0)
               (match aux with Some a -> hex_of_string a | None -> "~") (String.concat " " (gen_ops ~wits (body ^ junk) true))
      | _ -> Printf.fprintf oc "fb %s\n" (hex_of_string (if chance 20 then mutate body else body ^ junk)))
   done;
